@@ -1186,7 +1186,7 @@ func main() {
 	runner.Main(runner.Check{
 		Property: "C13",
 		Level:    "exploration",
-		Rule:     "one case = one (entry point, input): ParseFrame/ReadVarint (all 2-byte strings + seeded), Reader over hostile streams x read partitions, UnmarshalError, drpcmetadata.Decode (all strings <= 2 bytes, all 3..6-byte strings over a 9-byte alphabet, mutated valid encodings), drpchttp.Context on every header string over {%,=,a,0,G} up to length 6 (8 thorough), ServeHTTP for 8 content types x bodies (length claims vs actual bytes, sizes at the 4 MiB limit +-1, base64 garbage, seeded), ~50 hostile error values (nil Unwrap/Cause, cycles 1-3, foreign Code signatures, uncomparable types, deep chains) through drpcerr.Code, MarshalError, both gateway protocols and a live server, Stream.HandlePacket for kinds 0..63 x control x ids x payloads, and live client/server managers fed mutated-valid and random byte streams over simnet in child processes. Batches partition the inputs; distinct_nontrivial counts inputs executed.",
+		Rule:     "one case = one (entry point, input): ParseFrame/ReadVarint (all 2-byte strings + seeded), Reader over hostile streams x read partitions, UnmarshalError, drpcmetadata.Decode (all strings <= 2 bytes, all 3..6-byte strings over a 9-byte alphabet, mutated valid encodings), drpchttp.Context on every header string over {%,=,a,0,G} up to length 6 (8 thorough), ServeHTTP for 8 content types x bodies (length claims vs actual bytes, sizes at the 4 MiB limit +-1, base64 garbage, seeded), ~50 hostile error values (nil Unwrap/Cause, cycles 1-3, foreign Code signatures, uncomparable types, deep chains) through drpcerr.Code, MarshalError, both gateway protocols and a live server, Stream.HandlePacket for kinds 0..63 x control x ids x payloads, and live client/server managers fed mutated-valid and random byte streams over simnet in child processes. Batches partition the inputs; distinct_nontrivial counts inputs executed. Handler errors through the gateway include texts of 255 to 65537 bytes of every byte class (continuation bytes only, lead bytes only, 0xff, four-byte characters cut anywhere, ASCII).",
 		Assumptions: []string{
 			"a panic or runtime fatal with storj.io/drpc frames on its stack is the violation; direct calls are wrapped in recover, library goroutines are watched through child-process death",
 			"allocation bound asserted for gateway bodies: TotalAlloc delta of one ServeHTTP call <= 8*4MiB + 1MiB",
